@@ -48,8 +48,8 @@ def variants():
     v.append(('PS+0co', {'t': 'PS', 'callouts': []}))
     v.append(('SS', {'t': 'SS', 'ascii': 'BC8A0A02'.ljust(32), 'wc': 5}))
     v.append(('SS+pce', {'t': 'SS', 'ascii': '11002200'.ljust(32), 'callouts': [CO_FRU, CO_FRU_PCE]}))
-    for n in (0, 4, 80):
-        v.append(('EH%d' % n, {'t': 'EH', 'sym': ('BD8D1234_' * 9)[:n]}))
+    for n in (0, 4, 80, 84, 252):       # the symptom id length is one byte: up to 252 characters in multiples of four
+        v.append(('EH%d' % n, {'t': 'EH', 'sym': ('BD8D1234_' * 30)[:n]}))
     v.append(('MT', {'t': 'MT'}))
     for nl in (0, 4, 8):
         for nt in (0, 1, 2, 3):
